@@ -87,7 +87,7 @@ def check(w):
         byid = {s["id"]: s for s in scen}
         obs2, _ = run(w, [byid[i] for i in sorted(rej)], "confirm")
         rej2, _, _ = validate(w, obs2, "confirm")
-        vlib_unreproduced(v, rej, rej2)
+        vlib_unreproduced(v, rej, rej2, total=len(obs))
         for o in obs2:
             if o["id"] in rej2:
                 what = "client-died" if o["result"] in ("crashed", "hung") else "server-frames-malformed" if not (o["parsed"] and o["maxlen"] <= 262144) else ("injected-error-lost" if o["injerr"] else ("spurious-failure" if o["result"] != "ok" else "different-result"))
